@@ -42,9 +42,21 @@ func linesOfBytes(b []byte) []any {
 	return out
 }
 
-func sniffInput(b []byte, src, want string) M {
+func sniffInput(b []byte, src, want string) M { return sniffInputAt(b, src, want, 0) }
+
+// sniffInputAt: the stream is handed over at offset `start`: the first (JSON) attempt sees what
+// follows that offset, the line attempt starts over from the beginning; afterwards the stream is
+// at its start all the same
+func sniffInputAt(b []byte, src, want string, start int) M {
+	if start < 0 || start > len(b) {
+		start = 0
+	}
 	m := M{"b64": base64.StdEncoding.EncodeToString(b), "lines": linesOfBytes(b), "src": src}
-	if d := declOfBytes(b); d != nil {
+	if start > 0 {
+		m["start"] = float64(start)
+		m["src"] = fmt.Sprintf("%s@%d", src, start)
+	}
+	if d := declOfBytes(b[start:]); d != nil {
 		m["decl"] = d
 	}
 	if want != "" {
@@ -314,7 +326,11 @@ func sniffGen(g *G, tier string) []M {
 					inputs = append(inputs, sniffInput(reencode(b, how), fmt.Sprintf("writer:%s:indent%d:reenc%d", f, indent, how), string(f)))
 				} else {
 					b, src := g.sniffBytes()
-					inputs = append(inputs, sniffInput(b, src, ""))
+					if g.Chance(0.2) && len(b) > 0 {
+						inputs = append(inputs, sniffInputAt(b, src, "", g.Pick2([]int{1, 7, len(b) / 2, len(b)})))
+					} else {
+						inputs = append(inputs, sniffInput(b, src, ""))
+					}
 				}
 			}
 			if len(inputs) > 0 {
@@ -360,6 +376,9 @@ func ExecSniff(op M) (res any) {
 			rs := &recordingSeeker{r: bytes.NewReader(b)}
 			_, _ = rs.r.Seek(int64(min(7, len(b))), io.SeekStart) // detection must not depend on where the stream stood
 			_, _ = rs.r.Seek(0, io.SeekStart)
+			if st := int(asInt0(im["start"])); st > 0 && st <= len(b) {
+				_, _ = rs.r.Seek(int64(st), io.SeekStart) // handed over in the middle
+			}
 			f, err := sn.SniffReader(rs)
 			pos, _ := rs.r.Seek(0, io.SeekCurrent)
 			rest, _ := io.ReadAll(rs.r)
@@ -472,4 +491,11 @@ var SniffStream = &Stream{
 	},
 	OpProps: func(op M) []string { return []string{"C06"} },
 	Reps:    1,
+}
+
+func asInt0(v any) int64 {
+	if v == nil {
+		return 0
+	}
+	return asInt(v)
 }
